@@ -24,12 +24,11 @@ def chars_of(rng, w, kind, force=True):
     return s.encode().hex()
 
 
-def requests(ctx):
-    rng = ctx.rng
-    quick = ctx.tier == "quick"
+def fstw_requests(rng, widths, maxlen, nrandom):
+    """callback sequences for the real fst::SignalWriter: every order of 2/4/9-state values up to `maxlen` for the widths, plus random
+    histories (redundant values, reals, strings)"""
     rq = []
-    maxlen = 4 if quick else 5
-    for w in (range(1, 25) if quick else range(1, 41)):
+    for w in widths:
         for n in range(1, maxlen + 1):
             for kinds in itertools.product([0, 1, 2], repeat=n):
                 parts = []
@@ -38,7 +37,7 @@ def requests(ctx):
                     t += rng.choice([0, 1, 1, 2])
                     parts.append(f"{t}={chars_of(rng, w, k)}")
                 rq.append(f"fstw b{w} {','.join(parts)}")
-    for _ in range(2500 if quick else 25000):
+    for _ in range(nrandom):
         r = rng.random()
         t = 0
         parts = []
@@ -71,6 +70,13 @@ def requests(ctx):
                 last = v
                 parts.append(f"{t}={v}")
             rq.append(f"fstw s {','.join(parts)}")
+    return rq
+
+
+def requests(ctx):
+    rng = ctx.rng
+    quick = ctx.tier == "quick"
+    rq = fstw_requests(rng, range(1, 25) if quick else range(1, 41), 4 if quick else 5, 2500 if quick else 25000)
     # whole FST files written from abstract designs (gen/fst_writer.py): hierarchy entries with kinds / directions / ranges / aliases,
     # 1..n value-change blocks, snapshot as frame or as records, packed / ASCII / 1-bit record forms, raw / zlib streams
     from . import ghwgen
